@@ -407,7 +407,7 @@ def gen_smiles(rng, ctx):
 PROFILES = {
     # relative weights of op kinds; per run a random subset is switched off (swarm)
     "C11": dict(set_preset=6, set_table=8, set_bad=4, get=1, get_preset=1, get_alphabet=2, mutate=4,
-                decode=30, encode=14, decode_fail=5, encode_fail=3, flood=2, observe=2, alpha_decode=0, util=2, repeat=8, deep=2, set_from=1),
+                decode=30, encode=14, decode_fail=5, encode_fail=3, flood=2, observe=2, alpha_decode=0, util=2, repeat=8, deep=3, set_from=1),
     "C12": dict(set_preset=8, set_table=10, set_bad=14, get=10, get_preset=8, get_alphabet=8, mutate=16,
                 decode=8, encode=4, decode_fail=3, encode_fail=1, flood=1, observe=6, alpha_decode=0, util=1, repeat=2, deep=0, set_from=6),
     "C07": dict(set_preset=6, set_table=14, set_bad=6, get=1, get_preset=1, get_alphabet=10, mutate=6,
@@ -634,9 +634,11 @@ class _GenState:
             if rng.random() < 0.3:
                 # a molecule with 100 or more rings (ring closure numbers beyond 99 are reused)
                 m = rng.randint(100, 130)
-                x = rng.choice(("[C]" + "[C][C][Ring1][Ring1]" * m,
-                                "[C]" + "[C][C][Ring1][Ring1]" * m + "[Ring3][Ring1][Ring2][Ring1]",
-                                "[C][C][C][Ring1][Ring1]" + "[N][C][C][=Ring1][Ring1]" * m))
+                unit = rng.choice(("[C][C][Ring1][Ring1]", "[N][C][C][=Ring1][Ring1]", "[C][C][C][Ring1][Ring2]"))
+                x = "[C]" + unit * m
+                if rng.random() < 0.6:
+                    # an outer macrocycle: its ring (number 1) stays open while all the small ones open and close
+                    x += "[Ring3][Ring2][P][P]"
                 op = {"op": "decode", "x": x, "compatible": False, "attribute": False}
             elif u < 0.3:
                 op = {"op": "decode", "x": "[C]" + "[Branch1][P][C]" * n, "compatible": False, "attribute": False}
